@@ -579,7 +579,7 @@ func evalSinkProgram(id string, p wprog, seekable, withModel bool) (int, int) {
 }
 
 func sinkSide(R *rand.Rand) {
-	nprog := e.Pick(24, 400)
+	nprog := e.Pick(24, 300)
 	for i := 0; i < nprog; i++ {
 		p := genProg(R, i)
 		for _, seekable := range []bool{false, true} {
